@@ -80,6 +80,8 @@ pub fn run(kind: &str, args: &[String]) -> i32 {
         "meta" => meta(&mut sink, &opts),
         "retrace" => retrace(&mut sink, &opts),
         "text" => text(&mut sink, &opts),
+        "cache" => cache(&mut sink, &opts),
+        "sink" => sinks(&mut sink, &opts),
         _ => {
             eprintln!("unknown trace kind {kind}");
             return 2;
@@ -402,6 +404,205 @@ fn text(sink: &mut Sink, o: &Opts) {
                     sink.emit(json!({"t": "sig", "sid": sid + 1, "sig": enc::s(&sig), "out": out}));
                 }
             }
+        }
+    }
+}
+
+pub fn cache_error_json(e: &proguard::CacheError) -> Value {
+    use proguard::CacheErrorKind as K;
+    match e.kind() {
+        K::WrongEndianness => json!({"ok": false, "err": "WrongEndianness"}),
+        K::WrongFormat => json!({"ok": false, "err": "WrongFormat"}),
+        K::WrongVersion => json!({"ok": false, "err": "WrongVersion"}),
+        K::InvalidHeader => json!({"ok": false, "err": "InvalidHeader"}),
+        K::InvalidClasses => json!({"ok": false, "err": "InvalidClasses"}),
+        K::InvalidMembers => json!({"ok": false, "err": "InvalidMembers"}),
+        K::UnexpectedStringBytes { expected, found } => {
+            json!({"ok": false, "err": "UnexpectedStringBytes", "expected": enc::dec_usize(expected), "found": enc::dec_usize(found)})
+        }
+        _ => json!({"ok": false, "err": "other"}),
+    }
+}
+
+pub fn parse_outcome(bytes: &[u8]) -> Value {
+    let buf = crate::handles::Aligned::new(bytes);
+    match guarded(std::panic::AssertUnwindSafe(|| match proguard::ProguardCache::parse(buf.bytes()) {
+        Ok(_) => json!({"ok": true}),
+        Err(e) => cache_error_json(&e),
+    })) {
+        Ok(v) => v,
+        Err(p) => json!({"ok": false, "err": "panic", "msg": p}),
+    }
+}
+
+fn written_event(src: &[u8]) -> Option<(Value, Vec<u8>)> {
+    let bytes = match crate::handles::write_cache(src) {
+        Ok(b) => b,
+        Err(e) => return Some((json!({"t": "written", "src": enc::bytes(src), "bytes": [], "test_ok": false, "error": e}), vec![])),
+    };
+    let buf = crate::handles::Aligned::new(&bytes);
+    let test_ok = guarded(std::panic::AssertUnwindSafe(|| match proguard::ProguardCache::parse(buf.bytes()) {
+        Ok(c) => {
+            c.test();
+            true
+        }
+        Err(_) => false,
+    }))
+    .unwrap_or(false);
+    Some((json!({"t": "written", "src": enc::bytes(src), "bytes": enc::bytes(&bytes), "test_ok": test_ok}), bytes))
+}
+
+fn put_u32(b: &mut [u8], off: usize, v: u32) {
+    b[off..off + 4].copy_from_slice(&v.to_le_bytes());
+}
+
+fn get_u32(b: &[u8], off: usize) -> u32 {
+    u32::from_le_bytes([b[off], b[off + 1], b[off + 2], b[off + 3]])
+}
+
+/// C09/C11/C14: `--focus written|parse|same`
+fn cache(sink: &mut Sink, o: &Opts) {
+    let mut rng = Rng::new(o.seed);
+    let focus = opt_value(o, "--focus").unwrap_or_else(|| "written".into());
+    let mut srcs: Vec<Vec<u8>> = vec![];
+    for f in &o.files {
+        srcs.push(std::fs::read(f).expect("corpus file"));
+    }
+    for k in 0..o.n {
+        let cfg = gen::MapCfg { max_classes: 1 + k % 6, max_members: k % 8, wild: false, noise: k % 3 == 0 };
+        srcs.push(match k % 7 {
+            0 => gen::mapping_many_classes(&mut rng, 5 + k % 40),
+            1 => gen::mapping_long_strings(&mut rng),
+            _ => gen::mapping(&mut rng, &cfg),
+        });
+    }
+    if focus == "written" {
+        srcs.push(vec![]);
+        srcs.push(b"a.B -> a:\n".to_vec());
+    }
+    for (k, src) in srcs.iter().enumerate() {
+        match focus.as_str() {
+            "written" => {
+                if let Some((ev, _)) = written_event(src) {
+                    sink.emit(ev);
+                }
+            }
+            "parse" => {
+                let Ok(bytes) = crate::handles::write_cache(src) else { continue };
+                // every prefix for the first files, a seeded sample afterwards
+                let all = k < 3 && bytes.len() <= 700;
+                let cuts: Vec<usize> = if all { (0..bytes.len()).collect() } else { (0..24).map(|_| rng.below(bytes.len().max(1))).collect() };
+                for c in cuts {
+                    let pre = &bytes[..c];
+                    sink.emit(json!({"t": "parse", "what": "prefix", "bytes": enc::bytes(pre), "outcome": parse_outcome(pre)}));
+                }
+                if bytes.len() >= 24 {
+                    // single-field edits of the 24-byte header
+                    let mut edits: Vec<Vec<u8>> = vec![];
+                    let mut e = bytes.clone();
+                    e[..4].reverse();
+                    edits.push(e);
+                    for m in [0u32, 1, 0x50524743 ^ 1, u32::MAX] {
+                        let mut e = bytes.clone();
+                        put_u32(&mut e, 0, m);
+                        edits.push(e);
+                    }
+                    for v in [0u32, 2, 0x0100_0000, u32::MAX] {
+                        let mut e = bytes.clone();
+                        put_u32(&mut e, 4, v);
+                        edits.push(e);
+                    }
+                    for field in 0..4 {
+                        let off = 8 + 4 * field;
+                        let cur = get_u32(&bytes, off);
+                        for v in [0, cur.wrapping_sub(1), cur + 1, cur + 2, 1 << 20, 1 << 31, u32::MAX - 1, u32::MAX] {
+                            if v != cur {
+                                let mut e = bytes.clone();
+                                put_u32(&mut e, off, v);
+                                edits.push(e);
+                            }
+                        }
+                    }
+                    // extra bytes after the string section are allowed
+                    let mut e = bytes.clone();
+                    e.extend_from_slice(b"trailing");
+                    edits.push(e);
+                    for e in edits {
+                        sink.emit(json!({"t": "parse", "what": "edit", "bytes": enc::bytes(&e), "outcome": parse_outcome(&e)}));
+                    }
+                }
+            }
+            _ => {
+                // repeated writes: in this process, from threads, and from separately started processes
+                let nproc: usize = opt_value(o, "--procs").map(|s| s.parse().unwrap()).unwrap_or(8);
+                let mut copies: Vec<Vec<u8>> = vec![];
+                for _ in 0..2 {
+                    if let Ok(b) = crate::handles::write_cache(src) {
+                        copies.push(b);
+                    }
+                }
+                let handles: Vec<_> = (0..4)
+                    .map(|_| {
+                        let s2 = src.clone();
+                        std::thread::spawn(move || crate::handles::write_cache(&s2))
+                    })
+                    .collect();
+                for h in handles {
+                    if let Ok(Ok(b)) = h.join() {
+                        copies.push(b);
+                    }
+                }
+                let dir = std::env::temp_dir().join(format!("pgv-same-{}-{}", std::process::id(), k));
+                std::fs::create_dir_all(&dir).unwrap();
+                let inp = dir.join("in.txt");
+                std::fs::write(&inp, src).unwrap();
+                let exe = std::env::current_exe().unwrap();
+                let children: Vec<_> = (0..nproc)
+                    .map(|i| {
+                        let outp = dir.join(format!("out{i}.bin"));
+                        (std::process::Command::new(&exe).arg("write-cache").arg(&inp).arg(&outp).spawn().unwrap(), outp)
+                    })
+                    .collect();
+                let mut procs = 0;
+                for (mut c, outp) in children {
+                    if c.wait().map(|s| s.success()).unwrap_or(false) {
+                        copies.push(std::fs::read(&outp).unwrap());
+                        procs += 1;
+                    }
+                }
+                let _ = std::fs::remove_dir_all(&dir);
+                sink.emit(json!({"t": "same", "procs": procs, "copies": copies.iter().map(|c| enc::bytes(c)).collect::<Vec<_>>()}));
+            }
+        }
+    }
+}
+
+/// C15: random mappings x sink policies (at most k per call, short once, zero once, fail at i,
+/// interrupted at i, random scripts)
+fn sinks(sink: &mut Sink, o: &Opts) {
+    let mut rng = Rng::new(o.seed);
+    for k in 0..o.n {
+        let cfg = gen::MapCfg { max_classes: 1 + k % 4, max_members: k % 5, wild: false, noise: false };
+        let src = if k % 5 == 0 { gen::mapping_long_strings(&mut rng) } else { gen::mapping(&mut rng, &cfg) };
+        let probe = crate::sink::run(&src, vec![], 1 << 30);
+        let ncalls = probe.sink.calls.len().max(1);
+        let mut scripts: Vec<(Vec<i64>, i64)> = vec![];
+        for cap in 1..=16 {
+            scripts.push((vec![], cap));
+        }
+        for i in 0..ncalls.min(14) {
+            scripts.push(([vec![1 << 30; i], vec![rng.range(1, 3) as i64]].concat(), 1 << 30));
+            scripts.push(([vec![1 << 30; i], vec![-2]].concat(), 1 << 30));
+            scripts.push(([vec![1 << 30; i], vec![-1]].concat(), 1 << 30));
+            scripts.push(([vec![1 << 30; i], vec![0]].concat(), 1 << 30));
+        }
+        for _ in 0..6 {
+            let script: Vec<i64> = (0..rng.range(1, 30)).map(|_| match rng.below(12) { 0 => -1, 1 => -2, 2 => 0, _ => rng.range(1, 9) as i64 }).collect();
+            scripts.push((script, rng.range(1, 40) as i64));
+        }
+        for (script, rest) in scripts {
+            let out = crate::sink::run(&src, script, rest);
+            sink.emit(crate::sink::event(&out));
         }
     }
 }
